@@ -28,6 +28,11 @@ Reading guide.  A Python set is enumerated in some permutation `σ` of its eleme
   * if_struct           : modelled whole (Model/IfStruct.lean, stream site-ifst) with the enumeration of the set
                             `unresolved` and the order of the dict `idoms` as parameters; `if_struct_order_irrelevant`
                             (+ `_rpo` for the `compute_rpo` numbers of C19), `if_follow_tie_order_matters`.
+  * switch_struct       : the same for Model/SwitchStruct.lean (stream site-swst): `switch_struct_order_irrelevant`.
+  * class "independent" : the link site → theorem is the hand-written label of `Order.modelled`; for the sites of
+                            that class the loop bodies are now written out as functions of the visited element
+                            (Model/LoopBodies.lean; `to_update_order_irrelevant`, `if_unresolved_order_irrelevant`),
+                            the dom_lt bucket loop is inside the C18 model (`dom_lt_order_irrelevant`).
 The whole-pipeline statement ("the text is a function of the bytecode only") is NOT a theorem here:
 the rest of the decompiler is assumed deterministic given deterministic inputs (lists and dicts are
 ordered in CPython); that part is covered by the search leg only.  See manifest/C22.json.
@@ -38,6 +43,8 @@ import AgVerif.Proof.RpoDom
 import AgVerif.Proof.Intervals
 import AgVerif.Proof.DerivedSeq
 import AgVerif.Proof.IfStruct
+import AgVerif.Proof.SwitchStruct
+import AgVerif.Model.LoopBodies
 namespace AgVerif.C22
 open AgVerif.Order List
 open AgVerif.Spec (Reach Dominates SDom)
@@ -497,6 +504,46 @@ theorem if_follow_tie_order_matters :
     (IfStruct.ifStruct id [1] (fun _ => true) [(3, 1), (2, 1)] (fun _ => 2) (fun _ => 7)).follow 1 = some 3 := by
   refine ⟨by decide, by decide, by decide⟩
 
+/-! ## `switch_struct`, and the loop bodies of the class "independent" (Model/SwitchStruct.lean, Model/LoopBodies.lean) -/
+
+/-- `switch_struct` sets the same `follow['switch']` attributes for every enumeration of its set `unresolved`
+    and every insertion order of the dict `idoms` (pairwise different keys), when the numbers of the keys are
+    pairwise different; exceptions (`none`) included -/
+theorem switch_struct_order_irrelevant (ord₁ ord₂ : List Nat → List Nat) (h₁ : ∀ l, ord₁ l ~ l)
+    (h₂ : ∀ l, ord₂ l ~ l) {i₁ i₂ : List (Nat × Option Nat)} (hi : i₁ ~ i₂) (hN : (i₁.map Prod.fst).Nodup)
+    (post : List Nat) (isSwitch : Nat → Bool) (sucs : Nat → List Nat) (npreds num : Nat → Nat) (fuel : Nat)
+    (hinj : ∀ a ∈ i₁.map Prod.fst, ∀ b ∈ i₁.map Prod.fst, num a = num b → a = b) :
+    SwitchStruct.switchStruct ord₁ post isSwitch sucs i₁ npreds num fuel =
+      SwitchStruct.switchStruct ord₂ post isSwitch sucs i₂ npreds num fuel :=
+  SwitchStruct.switchStruct_order_irrelevant ord₁ ord₂ h₁ h₂ hi hN post isSwitch sucs npreds num fuel hinj
+
+/-- `for node in to_update: node.update_attribute_with(node_map)` (split_if_nodes, simplify) with the body
+    written out (`LoopBodies.updateAttr`: a function of the visited node's own attributes and of `node_map`):
+    the resulting attributes do not depend on the enumeration of the set -/
+theorem to_update_order_irrelevant (kind : Nat → LoopBodies.Kind) (nmap : List (Nat × Nat))
+    (st : Nat → LoopBodies.Attr) {σ₁ σ₂ : List Nat} (h : σ₁ ~ σ₂) :
+    LoopBodies.toUpdateLoop kind nmap st σ₁ = LoopBodies.toUpdateLoop kind nmap st σ₂ :=
+  independent_updates_order_irrelevant _ st h
+
+/-- the `for node in if_unresolved` loop of `identify_structures` with the body written out: the resulting
+    `follow['if']` attributes do not depend on the enumeration of the set -/
+theorem if_unresolved_order_irrelevant (num : Nat → Nat) (loopF switchF ifF : Nat → Option Nat)
+    {σ₁ σ₂ : List Nat} (h : σ₁ ~ σ₂) :
+    LoopBodies.finishUnresolved num loopF switchF ifF σ₁ = LoopBodies.finishUnresolved num loopF switchF ifF σ₂ :=
+  independent_updates_order_irrelevant _ ifF h
+
+/-- the repaired `Interval.compute_end` iterates the insertion-ordered dict `content` (built by `intervals`,
+    Model/Intervals.lean) and no set: its result is the value of the legacy function on one particular
+    enumeration, namely the LAST node in insertion order that has a successor outside the interval, and the
+    header when there is none -/
+theorem compute_end_fixed_enumerates {α} [BEq α] [LawfulBEq α] (sucs : α → List α) (head : α) (content : List α) :
+    (∃ σ, σ ~ content ∧ computeEnd sucs head content = computeEnd sucs head σ) ∧
+    (content.filter (hasOutside sucs content) = [] → computeEnd sucs head content = head) ∧
+    (∀ l x, content.filter (hasOutside sucs content) = l ++ [x] → computeEnd sucs head content = x) := by
+  refine ⟨⟨content, Perm.refl _, rfl⟩, fun h => ?_, fun l x h => ?_⟩
+  · simp [computeEnd, lastSat_eq, h]
+  · simp [computeEnd, lastSat_eq, h]
+
 /-! ## non-vacuity -/
 
 -- a permutation that is not the identity satisfies the hypotheses of the B theorems
@@ -610,5 +657,17 @@ def ifEx : IfStruct.St :=
     (fun n => if n = 4 then 2 else 1) id
 example : (ifEx.follow 1, ifEx.follow 2, ifEx.follow 3, ifEx.unresolved) = (some 4, some 4, some 4, []) := by
   decide
+
+-- switch_struct: switch node 1 with successors 2, 3 that both reach 4; idoms as a dict in two insertion orders
+example : (SwitchStruct.switchStruct id [4, 3, 2, 1] (fun n => n = 1) (fun n => if n = 1 then [2, 3] else if n ≤ 3 then [4] else [])
+      [(1, none), (2, some 1), (3, some 1), (4, some 1)] (fun n => if n = 4 then 2 else 1) id 20).map (fun s => s.follow 1)
+    = some (some 4) ∧
+    [(1, none), (2, some 1), (3, some 1), (4, some 1)] ~ [(4, some 1), (3, some 1), (1, none), (2, some 1)] := by
+  decide
+-- update_attribute_with on a switch node: 5 ↦ 9 renames the case key and the latch, duplicates collapse in loop_nodes
+example : LoopBodies.updateAttr .switch [(5, 9), (2, 9)] ⟨some 5, [none, some 2, none], [5, 2, 9], none, none, [5, 7], [(5, [1]), (7, [2])]⟩
+    = ⟨some 9, [none, some 9, none], [9], none, none, [9, 7], [(7, [2]), (9, [1])]⟩ := by decide
+example : LoopBodies.minFollow id (some 7) (some 3) = some 3 ∧ LoopBodies.minFollow id (some 3) (some 3) = some 3 ∧
+    LoopBodies.minFollow id none none = none := by decide
 
 end AgVerif.C22
